@@ -221,12 +221,43 @@ class SchemaGen:
         return {kw: [self.schema(depth + 1) for _ in range(r.randint(1, 3))]}
 
 
+# ---- definition / class names: identifiers of every shape, not only Capitalised ones.  Heads cover every
+# letter of the "#/definitions/" prefix (d e f i n t o s) and other lower/upper-case letters; digits and
+# underscores inside; names that are prefixes / suffixes of one another (also "up to leading prefix letters").
+PREFIX_LETTERS = "definitos"
+NAME_HEADS = list("defintos") * 3 + list("abcghjklmpqruvwxyz") + list("ABDEFINOST")
+NAME_BODIES = ["", "ef", "tem", "ode", "rder", "_x", "9", "efinitions", "s_1", "Ab", "nt", "__", "to", "ist"]
+NAME_GLUE = ["it", "nod", "se", "t", "dein", "definitions", "o", "f_", "x", "Z", "a1", "sn"]
+
+
+def pool_name(rng, idx, k):
+    return f"{rng.choice(NAME_HEADS)}{rng.choice(NAME_BODIES)}{idx}_{k}"
+
+
+def def_names_for(rng, idx, n):
+    names = []
+    for k in range(n):
+        r = rng.random()
+        if names and r < 0.2:
+            nm = names[-1] + rng.choice(["x", "_2", "s", "0"])          # previous name is a prefix of this one
+        elif names and r < 0.4:
+            nm = rng.choice(NAME_GLUE) + names[-1]                        # previous name is a suffix of this one
+        elif r < 0.5:
+            nm = f"D{idx}_{k}"
+        else:
+            nm = pool_name(rng, idx, k)
+        if nm in names or not nm.isidentifier():
+            nm = f"D{idx}_{k}"
+        names.append(nm)
+    return names
+
+
 def gen_case(rng, tier, idx, p_hostile=None, p_odd=None):
     depth = rng.choice([1, 2, 3]) if tier == "quick" else rng.choice([1, 2, 3, 4])
     ph = p_hostile if p_hostile is not None else rng.choice([0.0, 0.0, 0.1, 0.3])
     po = p_odd if p_odd is not None else rng.choice([0.0, 0.0, 0.0, 0.15])
     n_defs = rng.choice([0, 0, 1, 2, 3])
-    def_names = [f"D{idx}_{k}" for k in range(n_defs)]
+    def_names = def_names_for(rng, idx, n_defs)
     defs = []
     forward = po > 0 and rng.random() < 0.15
     for k, dn in enumerate(def_names):
@@ -254,8 +285,59 @@ def gen_case(rng, tier, idx, p_hostile=None, p_odd=None):
             schema["description"] = desc
         else:
             desc = None
-    return {"suite": "schemacode", "name": f"G{idx}", "schema": schema, "defs": defs,
+    name = f"G{idx}" if rng.random() < 0.5 else rng.choice(NAME_HEADS) + rng.choice(NAME_BODIES) + f"{idx}_m"
+    return {"suite": "schemacode", "name": name, "schema": schema, "defs": defs,
             "api": rng.choice(["struct", "struct", "write"]), "docseed": rng.randrange(1 << 30)}
+
+
+REF_POSITIONS = ["property", "items", "positional", "combinator", "map-value", "nested", "def-to-def"]
+
+
+def directed_ref_cases():
+    """every head letter x every position a $ref can stand in (small, deterministic)"""
+    out = []
+    heads = list("defintos") + ["a", "m", "Q", "x"]
+    leaf = {"type": "object", "properties": {"u": {"type": "integer", "minimum": 0}, "v": {"type": "string", "maxLength": 3}},
+            "required": ["u"], "additionalProperties": False}
+    for i, h in enumerate(heads):
+        for j, pos in enumerate(REF_POSITIONS):
+            if (i + j) % 3 and pos not in ("property", "items"):
+                continue          # every head in property + items position, a third of the heads in each other one
+            dn = f"{h}{NAME_BODIES[(i + j) % len(NAME_BODIES)]}_r{i}{j}"
+            other = f"{NAME_GLUE[(i * 7 + j) % len(NAME_GLUE)]}{dn}"          # dn is a suffix of `other`
+            ref = {"$ref": "#/definitions/" + dn}
+            ref2 = {"$ref": "#/definitions/" + other}
+            defs = [[dn, copy.deepcopy(leaf)],
+                    [other, {"type": "object", "properties": {"w": {"type": "boolean"}, "k": {"type": "number"}},
+                             "required": ["w"], "additionalProperties": True}]]
+            props = {"n": {"type": "integer"}}
+            if pos == "property":
+                props["p"] = ref
+                props["q"] = ref2
+            elif pos == "items":
+                props["p"] = {"type": "array", "items": ref2, "maxItems": 3}
+                props["q"] = {"type": "array", "items": ref}
+            elif pos == "positional":
+                props["p"] = {"type": "array", "items": [ref, {"type": "integer"}, ref2], "additionalItems": False}
+            elif pos == "combinator":
+                props["p"] = {"anyOf": [ref, {"type": "integer"}]}
+                props["q"] = {"oneOf": [{"type": "string"}, ref2]}
+            elif pos == "map-value":
+                props["p"] = {"type": "object", "additionalProperties": ref2}
+                props["q"] = {"type": "object", "additionalProperties": ref}
+            elif pos == "nested":
+                props["p"] = {"type": "object", "properties": {"a": ref, "b": ref2, "c": {"type": "integer"}},
+                              "required": ["a", "c"], "additionalProperties": True}
+            elif pos == "def-to-def":
+                third = f"{dn}x"                                            # dn is a prefix of `third`
+                defs.append([third, {"type": "object", "properties": {"a": ref, "b": ref2, "c": {"type": "integer"}},
+                                     "required": ["a", "b"], "additionalProperties": True}])
+                props["p"] = {"$ref": "#/definitions/" + third}
+            schema = {"type": "object", "properties": props, "required": ["p", "n"], "additionalProperties": True}
+            out.append({"suite": "schemacode", "name": f"{h}r{i}{j}_m" if j % 2 else f"R{i}{j}", "schema": schema,
+                        "defs": defs, "api": "write" if (i + j) % 2 else "struct", "docseed": 1000 + 10 * i + j,
+                        "stream": "directed-ref:" + pos})
+    return out
 
 
 FIXED = [
@@ -310,7 +392,7 @@ def fixed_cases():
 
 
 def gen_cases(rng, tier, n):
-    cases = fixed_cases()
+    cases = fixed_cases() + directed_ref_cases()
     for i in range(n):
         cases.append(gen_case(rng, tier, i))
     return cases
@@ -581,6 +663,19 @@ def judge(case, impl, model):
                 msgs.append(f"literal for {s['site']} not found in the generated code: {s['source']!r}")
                 break
 
+        # every $ref is emitted as the class name the model derives from it
+        top_map = schema.get("type", "object") == "object" and "properties" not in schema and not any(
+            k in schema for k in ("allOf", "anyOf", "oneOf", "not", "enum", "$ref"))
+        if not top_map:
+            import collections
+            for n, k in collections.Counter(model.get("refs", [])).items():
+                want_n = k + (1 if n in defs else 0)          # k references + the class statement itself
+                got_n = len(re.findall(r"(?<![\w])" + re.escape(n) + r"(?![\w])", impl["code"]))
+                if got_n < want_n:
+                    msgs.append(f"class name for $ref '#/definitions/{n}' occurs {got_n} times in the generated code, "
+                                f"model expects {want_n}")
+                    break
+
     # -- caller's schema must not be modified
     if impl.get("mutated"):
         fails.append(("mutates-input:required", "schema_to_struct_code modified the caller's schema: required "
@@ -685,6 +780,12 @@ def judge(case, impl, model):
 
 def tags(case, impl, model):
     out = ["phase:" + str(impl.get("phase")), "api:" + case.get("api", "?")]
+    if case.get("stream"):
+        out.append("stream:" + case["stream"])
+    heads = {("prefix-letter" if n[0][0] in PREFIX_LETTERS else "lower" if n[0][0].islower() else "upper")
+             for n in case["defs"]}
+    for h in sorted(heads):
+        out.append("defname-head:" + h)
     s = json.dumps(case["schema"]) + json.dumps(case["defs"])
     for kw in ("pattern", "enum", "default", "description", "$ref", "allOf", "anyOf", "oneOf", "not", "items",
                "additionalItems", "uniqueItems", "minItems", "multiplesOf", "exclusiveMaximum"):
